@@ -157,4 +157,31 @@ PROPS = {
             "per operation in the theorems' drop lists; no global multiset theorem",
         ],
     ),
+
+    "C07": dict(
+        prop_file="Properties/C07.v",
+        check_module="C07Check",
+        theorems={t: [] for t in ["C07_table_refines", "C07_append_key_least", "C07_set_then_get",
+                                  "C07_key_equality_is_value_equality"]},
+        n_quick=150, n_thorough=2500,
+        gates=["tb.pop_then_append", "tb.more_than_8_entries", "tb.string_keys", "tb.removed_present"],
+        rule="random histories (15-250 ops) on a CaoLangTable obtained from a Vm: insert / remove / append / pop / "
+             "get / nth_key / len / iter / keys with nil, integer, finite non-zero real and string keys (every use of "
+             "a string key is a fresh string object, so equality must be by content), key universes of 3-14 keys so "
+             "that overwrite / remove / pop-then-append / growth past 8 slots are frequent; results compared with "
+             "the Coq model and with the insertion-ordered association list; non-trivial = >= 5 operation kinds; "
+             "distinct = distinct case term",
+        trusted_base=COMMON_TB + [
+            "modelled, not verified: vm/runtime/cao_lang_table.rs (insert, remove, append, pop, nth_key, iter, keys, "
+            "len, get); the hash part is the abstract map of Table.v, licensed by the C12 refinement theorems and "
+            "by C19 (equal keys hash equally)"],
+        assumptions=[
+            "keys are nil, integers, strings, finite non-zero reals (the property's key domain); NaN and signed "
+            "zero keys are outside",
+            "the table instructions of the VM (Get/SetProperty, AppendTable, PopTable, NthRow, Len, ForEach) and "
+            "sharing of one table through several variables are exercised by the VM-level checks, not by this "
+            "host-API stream",
+            "i64 overflow of the append index (2^63 entries) is not modelled",
+        ],
+    ),
 }
